@@ -20,6 +20,16 @@ class DType(Marker):
     def __call__(self, x=0):
         return x
 
+    @property
+    def kind(self):
+        n = self.name.replace("np.", "")
+        return "f" if n.startswith("float") else "i" if n.startswith("int") else "u" if n.startswith("uint") else "b" if n.startswith("bool") else "O"
+
+    @property
+    def itemsize(self):
+        digits = "".join(c for c in self.name if c.isdigit())
+        return int(digits) // 8 if digits else 8
+
     def __eq__(self, o):
         n = o.name if isinstance(o, Marker) else getattr(o, "name", None) if isinstance(o, BT) else None
         if n is None:
@@ -265,6 +275,8 @@ class SymInterp(Interp):
     def get_attr(self, v, name, node=None):
         if isinstance(v, Flags):
             return getattr(v, name)
+        if isinstance(v, DType) and name in ("kind", "itemsize", "name"):
+            return getattr(v, name)
         if isinstance(v, SArr):
             return self.sarr_attr(v, name, node)
         if isinstance(v, Rat):
@@ -473,9 +485,11 @@ class SymInterp(Interp):
                 return S.keep_layout(a, r) if isinstance(a, SArr) else r
             return like
         if name in ("array", "asarray"):
-            def array(x, dtype=None, copy=None):
+            def array(x, dtype=None, copy=None, subok=False, order=None, ndmin=0, like=None):
+                if ndmin or like is not None:
+                    raise AnalysisAbort(f"np.{name} with ndmin / like")
                 if isinstance(x, SArr):
-                    return x.copy() if name == "array" else x
+                    return x.copy() if (name == "array" and copy is not False) else x
                 return SArr.from_nested(x)
             return array
         if name == "copy":
@@ -555,6 +569,11 @@ class SymInterp(Interp):
                 out = [d[1] - d[0]] + [(d[i + 1] - d[i - 1]) / 2 for i in range(1, n - 1)] + [d[n - 1] - d[n - 2]]
                 return SArr((n,), out)
             return gradient
+        if name == "fromiter":
+            def fromiter(it, dtype=None, count=-1):
+                vals = [(rat(int(v)) if isinstance(v, bool) else v) for v in I.iterate(it)]
+                return SArr.from_nested(vals)
+            return fromiter
         if name == "array_equal":
             def array_equal(a, b, **kw):
                 a, b = S.asarr(a), S.asarr(b)
